@@ -13,7 +13,8 @@ RULE = ('all dense-time formulas of the stated fragment (<=2 operators, no prev/
         'break-points are subsets of the half-unit grid on [t0, t0+L] (independent per variable, t0 in {0,1}); the real dense offline '
         'evaluate() output is read as a right-continuous step function and compared with the grid reference at every cell start and '
         'midpoint of the domain, plus non-decreasing time-stamps and first time-stamp = t0; a large-magnitude layer (values 1e9, 1e9+1, 1e9+2, '
-        'results up to 2e9 with unit steps, compared exactly); non-trivial = top operator mattered on the reference')
+        'results up to 2e9 with unit steps, compared exactly); a re-use layer: specifications with named sub-formulas and sqrt, one object alternating between data sets '
+        'it must reject (negative sample under sqrt) and data sets it must evaluate - every accepted evaluation compared with the reference; non-trivial = top operator mattered on the reference')
 ASSUMPTIONS = ['all variables of a data set start at the same t0 and end at the same time; break-points and bounds on the half-unit grid',
                'the reference is a cell computation validated against itself at two grid resolutions',
                'open finding site:C04-nonzero-start-bounded (t0 > 0 with a bounded temporal operator) is suppressed syntactically']
@@ -125,7 +126,76 @@ def shards(tier):
     out += [{'formulas': [F.to_json(f) for f in big[i:i + 2]], 'big': True} for i in range(0, len(big), 2)]
     it = int_formulas()
     out += [{'formulas': [F.to_json(f) for f in it[i:i + 8]], 'ints': True} for i in range(0, len(it), 8)]
+    out += [{'formulas': [], 'rejected': i} for i in range(len(rejected_specs()))]
     return out
+
+
+def rejected_specs():
+    """(defs, top): named sub-formulas and a partial function (sqrt) - evaluate() raises on data with a negative y"""
+    px, X, Y = F.PX, F.X, F.Y
+    sq = ('pred', '>=', ('sqrt', Y), F.C1)
+    return [
+        ([('p', ('always', (0, 2), px))], ('and', ('ref', 'p'), sq)),
+        ([('p', ('once', (0, 1), px)), ('q', ('or', ('ref', 'p'), ('pred', '<=', X, ('const', -1.0))))], ('since', None, ('ref', 'q'), sq)),
+        ([], ('and', ('eventually', (0, 1), px), sq)),
+        ([('p', sq)], ('or', ('historically', (0, 1), ('ref', 'p')), px)),
+        ([('p', ('eventually', (1, 2), X)), ('r', ('-', ('ref', 'p'), ('sqrt', Y)))], ('pred', '>=', ('ref', 'r'), F.C0)),
+    ]
+
+
+def run_rejected(shard, tier, res, mod):
+    """one specification object alternates between data sets it must reject (sqrt of a negative sample) and data sets it must evaluate:
+    every accepted evaluation must equal the reference, whatever the object was asked before"""
+    defs, top = rejected_specs()[shard['rejected']]
+    env = dict(defs)
+    f = F.inline(top, env)
+    vs = ['x', 'y']
+    subs = tuple('%s = %s;' % (n, F.pr(g)) for n, g in defs)
+    text = 'out = ' + F.pr(top)
+    fj = F.to_json(f)
+    spec = impl.build('ct_off', text, vs, subspecs=subs)
+    sxs = dref.signals_L(2, F.V2, 0.0, max_interior=1 if tier == 'quick' else 2)
+    sys_ = dref.signals_L(2, (0.0, 4.0), 0.0, max_interior=1)
+    bads = [{'x': sxs[0], 'y': ((0.0, 4.0), (1.0, -1.0), (2.0, 4.0))}, {'x': sxs[-1], 'y': ((0.0, -1.0), (2.0, -1.0))}]
+    res.formulas += 1
+    si = 0
+    for sx in sxs:
+        for sy in sys_:
+            for bi, bad in enumerate(bads):
+                si += 1
+                kb, vb = impl.outcome(impl.ct_evaluate, spec, bad)
+                sig = {'x': sx, 'y': sy}
+                case = {'rejected_layer': shard['rejected'], 'formula': fj, 'spec': text, 'subspecs': list(subs), 'vars': vs,
+                        'before': {v: [list(p) for p in s] for v, s in bad.items()}, 'signals': {v: [list(p) for p in s] for v, s in sig.items()}}
+                res.evaluations += 1
+                if kb == 'ok':
+                    res.violation(mod, case, 'evaluate() accepted a data set with sqrt of a negative sample and returned %r' % (vb[:4],))
+                    continue
+                ref = reference(f, sig, si)
+                k, val = impl.outcome(impl.ct_evaluate, spec, sig)
+                msg = ('evaluate() raised %s' % (val,)) if k != 'ok' else compare(val, sig, ref[0], ref[1])
+                if msg:
+                    res.violation(mod, case, 'after a rejected evaluate() on the same object: ' + msg)
+                    res.outcomes['differs after a rejected evaluation'] += 1
+                else:
+                    res.outcomes['agree'] += 1
+                    res.flags['after_rejected'] += 1
+                    if not all(v in (dref.INF, -dref.INF) for v in ref[1]):
+                        res.nontrivial += 1
+                res.digest(text, si, msg)
+    res.sample({'spec': text, 'sub_specs': list(subs), 'rejected_data': case['before'], 'then': case['signals']}, 1)
+
+
+def replay_rejected(case):
+    defs, top = rejected_specs()[case['rejected_layer']]
+    f = F.inline(top, dict(defs))
+    spec = impl.build('ct_off', case['spec'], case['vars'], subspecs=tuple(case['subspecs']))
+    impl.outcome(impl.ct_evaluate, spec, {v: [tuple(p) for p in s] for v, s in case['before'].items()})
+    sig = {v: [tuple(p) for p in s] for v, s in case['signals'].items()}
+    ref = reference(f, sig, 0)
+    k, val = impl.outcome(impl.ct_evaluate, spec, sig)
+    msg = ('evaluate() raised %s' % (val,)) if k != 'ok' else compare(val, sig, ref[0], ref[1])
+    return [msg] if msg else []
 
 
 def deep_signal_sets(nvars, tier):
@@ -244,6 +314,8 @@ def check_case(case, spec=None, idx=0, ref=None):
 
 def run_shard(shard, tier, res):
     mod = sys.modules[__name__]
+    if 'rejected' in shard:
+        return run_rejected(shard, tier, res, mod)
     cache = {}
     from . import c03
     todo = [(fj, None) for fj in shard['formulas']] + [(fj, st) for fj, st in shard.get('units', [])]
@@ -296,6 +368,8 @@ def run_shard(shard, tier, res):
 
 
 def replay(case):
+    if 'rejected_layer' in case:
+        return replay_rejected(case)
     m = check_case(case)
     return [m] if m and m != KNOWN_KEY else []
 
